@@ -24,6 +24,7 @@ from doctrans.pure_utils import (
     line_length,
     multiline,
     none_types,
+    paren_wrap_code,
     simple_types,
     tab,
     unquote,
@@ -136,6 +137,19 @@ def parse_out_param(expr, require_default=False, emit_default_doc=True):
         ),
         None,
     )
+    if isinstance(default, ast.AST):
+        # Not a literal (a call, an attribute, arithmetic): carry the expression, as source text
+        default = "```{}```".format(
+            paren_wrap_code(
+                to_code(
+                    next(
+                        key_word.value
+                        for key_word in expr.value.keywords
+                        if key_word.arg == "default"
+                    )
+                ).rstrip("\n")
+            )
+        )
     doc = (
         lambda help_: help_
         if help_ is None
